@@ -853,6 +853,10 @@ func (a *Act) rangeNext(ctx *blockCtx, x *ssa.Next) {
 	ns := g.fresh(it.seen, g.w.heapVars[it.seen])
 	g.fact("(= " + ns + " (ite " + ok + " (store " + seen + " " + k + " true) " + seen + "))")
 	ctx.st[it.seen] = ns
+	it.lastKey = Val{T: k, S: ks, G: it.mt.Key()}
+	// the delivered value is the map's value at the delivered key
+	mvT := g.mapvalTerm(ctx.st, it.m, it.mt)
+	g.fact(implies(and(ctx.reach, ok), and("(= "+val+" ("+g.mgetFn(ks, vs)+" "+mvT+" "+k+"))", "(select (map_dom "+mvT+") "+k+")")))
 	a.tuples[x] = []Val{boolT(ok), {T: k, S: ks, G: it.mt.Key()}, {T: val, S: vs, G: it.mt.Elem()}}
 	a.set(x, Val{T: "$tuple", S: "Tuple"})
 }
